@@ -10,11 +10,12 @@ vars == <<l, pFail>>
 
 \* KNOWN FINDING C11/relational-util-cycle: a utility that refers to itself through both a descending (`has`) and an
 \* ascending (`inside`) relation is accepted and recurses without bound while scanning
-KnownDoc(r) == ~r.mutation /\ r.doc.matches = "cycle_via_relation"
+\* (a byte-mutated document is recognised by its text: the recorder says whether the construct survived the mutation)
+KnownDoc(r) == IF r.mutation THEN r.doc.keeps_relational_cycle ELSE r.doc.matches = "cycle_via_relation"
 \* KNOWN FINDING C11/rewriter-self-recursion: a rewriter whose own `rewrite` transformation applies the rewriter itself to
 \* the very node it matched (rule `pattern: $B`, transform `rewrite: {source: $B, rewriters: [itself]}`) is accepted and
 \* recurses without bound while scanning
-KnownRw(r) == ~r.mutation /\ r.doc.rewriters = "self_on_same_node"
+KnownRw(r) == IF r.mutation THEN r.doc.keeps_self_rewriter ELSE r.doc.rewriters = "self_on_same_node"
 
 Reasons(r) ==
     { IF KnownDoc(r) /\ r.runs[k].outcome = "signal" THEN <<"known:relational-util-cycle", r.runs[k].mode>>
